@@ -2,7 +2,7 @@
 
 PROPERTIES = {
     "C10": dict(
-        modules=["frontend"],
+        modules=["frontend", "rewrites"],
         level="other",
         claim="proof part: get_expr_name / get_invalid_target total over the grammar-derived universe of expression classes; _build_syntax_error and "
         "check_fstring_conversion never fail with an internal exception; the generated "
